@@ -114,18 +114,24 @@ def innerAbstract (tab : Tab) (k : Nat) : Bool :=
 /-- `forml.provider.isabstract(cls)` -/
 def isabstract (tab : Tab) (k : Nat) : Bool := inspectAbstract tab k || innerAbstract tab k
 
-/-- a provider class statement: its class object is entry `k` of the table -/
+/-- a provider class statement: its class object is entry `k` of the table; `mro` is `cls.__mro__[1:]` with, for every
+entry, whether it is a subclass of `Service` other than `Service` itself (mixins — plain classes, ABCs, `typing.Generic` —
+and `Service` / `object` are not) -/
 structure ProvStmt where
   id : ClassId
   alias : Option Nat
   k : Nat
-  parents : List ClassId
+  mro : List (ClassId × Bool)
   paths : List Mod
   deriving DecidableEq, Repr
 
+/-- `(p for p in cls.__mro__ if issubclass(p, Service) and p is not Service)` without the class itself: EVERY Service
+ancestor of the MRO, whatever stands between them -/
+def serviceParents (mro : List (ClassId × Bool)) : List ClassId := (mro.filter (·.2)).map (·.1)
+
 /-- what `Service.__init_subclass__` / `Bank.add` see of the class -/
 def ProvStmt.toDef (tab : Tab) (s : ProvStmt) : ClassDef :=
-  ⟨s.id, s.alias, inspectAbstract tab s.k, innerAbstract tab s.k, s.parents, s.paths⟩
+  ⟨s.id, s.alias, inspectAbstract tab s.k, innerAbstract tab s.k, serviceParents s.mro, s.paths⟩
 
 structure ModuleT where
   subs : List Nat
